@@ -12,6 +12,27 @@ CHECKS = {
  "C18": dict(engine=E1, technique="exhaustive enumeration of IR node values (reflection filler + grammar I) with copy/compare/alias analysis and single-location mutation of every reachable location of the copy",
    text="For each of the 36 IR node types with a DeepCopy method: zero value, all-fields-set values (every declared field non-zero, found by reflection so new fields are covered automatically), one value per single field, five contents for untyped slots, plus grammar-I types/schemas/builders. Every value is copied by the real DeepCopy; equality is checked field by field incl. unexported fields; the reachable address sets of original and copy must be disjoint; every reachable location of the copy is written once and the original's snapshot must not change.",
    note="Untyped slots that only ever hold immutable scalars are filled with scalars only; nil and empty collections are the same; a Schema always has a non-nil object map (ast.NewSchema). Values larger than the filler's recursion bound (2 quick / 3 thorough) are not covered.", ref="§6 C18"),
+ "C03": dict(engine=E2, technique="stateless deviation-bounded DFS over map-iteration-order choices of the instrumented real pipeline (controlled scheduler), plus uniform per-site policies",
+   text="Every `range <map>` in cog and codejen is rewritten (go/types-driven, at check time, on the current tree) to ask a scheduler for the order. For 5 pipeline scenarios x {run, inspect}: all schedules with <=1 dynamic point (thorough: <=2 on the reduced scenario) departing from the canonical order, all n! orders for n<=4, plus per-site reversal/rotation policies; each must reproduce the default schedule's file set, file hashes and inspect IR. Default schedule replayed 3x in 2 processes; replay divergence is a hard error; a canary map proves the scheduler drives executions.",
+   note="Map iteration inside third-party libraries is not instrumented; sites never reached with >=2 keys are listed as not exercised; points with >4 keys offer rotations, reversal and adjacent transpositions only (reported as capped).", ref="§6 C03"),
+ "C05": dict(engine=E3, technique="exhaustive enumeration of schemas x formats x language chains, explicit-state BFS over name-changing passes, all allow-list subsets; independent reference walker as invariant",
+   text="(1) 189 abstract schemas x 3 formats through the real loaders, (2) ~1300 IRs x 7 language chains through Pipeline.ContextForLanguage with builders, (3) BFS depth<=2 (thorough 3) over rename/prefix/duplicate/unspec/replace_reference x target variants from 14 seeds, (4) every subset of every seed schema as allow-list; an independent walker (not compiler.Visitor) checks that every judged reference resolves / that the closure is exact.",
+   note="References into packages that are not loaded are not judged; kindsys inputs and non-empty veneers are not covered; BFS does not reach a fixpoint (depth bound reported).", ref="§6 C05"),
+ "C06": dict(engine=E3, technique="exhaustive enumeration of IR shapes (grammar I, downward closed) through each language's real pass chain; normal-form invariant by an independent walker",
+   text="Every term of grammar I up to depth 3 (thorough 4, reduced leaves) in 4 placements x 5 languages through Pipeline.ContextForLanguage; the end state is checked against the statement's normal form (no unions for Go/Java, named enums, named structs outside allOf, optional => nullable, no T|null, member-name rules) by a walker that also visits map index types and union branches.",
+   note="Chain errors are not judged (sanctioned refusal); hints are not walked; crashes are recorded for C04 and not judged here.", ref="§6 C06"),
+ "C07": dict(engine=E2, technique="exhaustive enumeration of language subsets/orders (run order forced through the scheduler), input permutations, same-package input pairs, and argument-snapshot frame checks on every chain",
+   text="Per seed: 7 alone runs, all 42 ordered language pairs and both orders of all seven (each language's files must equal its alone run); all 6 orders of 3 inputs; every base set plus an unrelated package first/last; every pair over {absent,v1,v2}^2 definitions x 2 root layouts of same-package inputs (union or conflict); every language chain on every seed/grammar-I IR with a before/after canonical snapshot of the argument. Runs execute in a crash- and hang-isolated worker.",
+   note="In the unrelated-input part only files whose path names a pre-existing package are compared; hangs are bounded by a 30 s per-run deadline (runs take < 1 s) and end the part with exhaustive=false.", ref="§6 C07"),
+ "C15": dict(engine=E1, technique="explicit-state BFS over sequences of the 19 transformations (loaded through the YAML loader) with a per-transformation reference model compared on every transition",
+   text="From 11 seed IRs, all sequences of length <=2 (thorough 3, reduced alphabet) over ~110 parameterised operations (exact / other-case / absent / other-package targets); states deduplicated by canonical form; on every transition the real result of compiler.Passes.Process equals the model (written from the reference docs + Appendix A.1) on all objects, fields, comments, defaults, hints, orderings, and untargeted objects are identical including trails.",
+   note="Returned errors are not judged; renames onto taken names and ambiguous matches are lenient; stale discriminator mappings may or may not follow a rename; enum member names are free under PrefixObjectNames.", ref="§6 C15, App. A.1"),
+ "C16": dict(engine=E3, technique="exhaustive enumeration of schema sets (grammar I fields, aliases, cycles, cross-package constants) with an independent derivation model compared clause by clause",
+   text="~40k (thorough ~184k) schema sets: every field type term x required/optional x decorations, alias chains, dangling and cyclic aliases, multi-field structs, object sets over two packages; BuilderGenerator.FromAST is compared with a derivation written from Appendix A.2 (which objects get builders; per field exactly one of option+assignment+constraints+default / constructor constant / nothing).",
+   note="Order of builders/options, comments and trails are free; optional or nullable references to constants may be option or constant (statement silent).", ref="§6 C16, App. A.2"),
+ "C20": dict(engine=E3, technique="exhaustive enumeration of configuration documents derived from the published JSON Schemas and, independently, from the loaders' Go structs; loader vs schema agreement",
+   text="Every key path of schemas/*.json and of the reflected loader structs instantiated with a type-correct value; every closed mapping node with one undeclared key injected (4 values, 2 positions, merge keys, alias spellings); every rule list with empty/null/no-action entries; each document goes through the real loaders and through santhosh-tekuri against the published schema (python jsonschema cross-check); verdicts must agree in both directions.",
+   note="Only key-level acceptance is compared; free-form positions are not injected; entries setting two actions are not judged.", ref="§6 C20"),
 }
 
 NOT_YET = "check not built yet in this session (planned, see DESIGN.md §6); not claimed until it runs clean on the unchanged tree"
